@@ -3128,6 +3128,18 @@ namespace bloch::runtime {
                     v.className = obj.classRef->name;
                     return v;
                 }
+                // super.f names the inherited instance field f of this object
+                if (dynamic_cast<SuperExpression*>(memAcc->object.get())) {
+                    Value self = lookup("this");
+                    RuntimeField* inherited = findInstanceField(obj.classRef, memAcc->member);
+                    if (inherited && self.type == Value::Type::Object && self.objectValue &&
+                        inherited->offset < self.objectValue->fields.size()) {
+                        Value fv = self.objectValue->fields[inherited->offset];
+                        if (fv.type == Value::Type::Qubit || fv.type == Value::Type::QubitArray)
+                            fv.objectValue = self.objectValue;
+                        return fv;
+                    }
+                }
                 throw BlochError(ErrorCategory::Runtime, memAcc->line, memAcc->column,
                                  "member not found on class");
             }
